@@ -596,3 +596,30 @@ Section Quirks.
     destruct (q_null_root_panic q); [discriminate | apply H].
   Qed.
 End Quirks.
+
+(* ---------------------------------------------------------------- what the callback is shown *)
+Section Sees.
+  Variable ltb : bytes -> bytes -> bool.
+  Variable mklink : dm -> cid.
+  Variable f : option dm -> option dm.
+  Variable cp : bool.
+  Hypothesis f_wf : forall x v, owf x -> f x = Some v -> wf_dm v = true.
+
+  (* every call of the callback during a completed transform is shown the node the path addresses in
+     the tree as it is now (None: nothing there), and there is at least one call *)
+  Theorem focus_callback_sees fuel st root p t res st' log :
+    raw t = root -> valid st t -> wfx t ->
+    focused_transform ltb mklink q_fixed f cp fuel st root p = Ok (res, (st', log)) ->
+    xupdate ltb mklink f cp st t p <> XNeedLoad ->
+    log <> [] /\ Forall (fun x => x = option_map raw (xfocus (Some t) p)) log.
+  Proof.
+    intros Hr Hv Hw HF Hnl.
+    pose proof (focus_ok ltb mklink f cp f_wf fuel st root p t res st' log Hr Hv Hw HF) as H.
+    unfold xupdate in *.
+    destruct (xupd ltb mklink f cp st (Some t) p) as [[t'|] seen| |] eqn:EX; try contradiction.
+    destruct H as (_ & _ & _ & _ & (k & Hk & Hl) & _). subst log.
+    apply xupd_seen in EX. subst seen. split.
+    - destruct k; [lia | discriminate].
+    - apply Forall_forall. intros x Hx. now apply repeat_spec in Hx.
+  Qed.
+End Sees.
